@@ -72,6 +72,9 @@ def run(ctx):
     budget = 40 if ctx.quick else 300
     hcount = 0
     for it in range(n):
+        if ctx.n_violations > 100:
+            ctx.note("stopped after more than 100 violations")
+            break
         if it % 32 == 0 and ctx.time_left(budget) < 0:
             ctx.note("stopped by time budget after %d cases" % it)
             break
@@ -127,6 +130,10 @@ def run(ctx):
                     continue
                 for _try in range(20):
                     v = G.gen_scalar(rng, t[0])
+                    if _r == 0 and t[0] in ('bigint', 'int', 'smallint', 'tinyint', 'varint'):
+                        # canary row: small integers first, so that a build that hands an int to bytes() (allocating that many
+                        # bytes) is detected on this table before a huge value is bound
+                        v = rng.randint(0, 64)
                     try:
                         S.enc(t, v, pv)
                     except (S.Undefined, S.SpecError):
@@ -197,6 +204,8 @@ def run(ctx):
                 cells.append(bvb)
             rows_canon.append((canon, states))
             rows_cells.append(cells)
+            if bad:
+                break
         if bad:
             continue
         # ---- the server's answer, decoded by the real handler with the policy
